@@ -47,6 +47,11 @@ ASSUMPTIONS = [
 MARGIN = Fraction(1, 1000)
 MJ = [1, 1000]
 
+
+def _rj(x):
+    x = Fraction(x)
+    return [x.numerator, x.denominator]
+
 # ------------------------------------------------------------------------------------------------
 # exact matrices over Q[i]
 
@@ -1026,6 +1031,61 @@ def _args_from_desc(d):
     return {k: (QM.from_json(v) if isinstance(v, dict) and "re" in v else v) for k, v in d.items()}
 
 
+def ldl_psd(A: QM):
+    """exact A = L diag(D) L^H with unit lower triangular L and D >= 0 (None if A is not PSD)"""
+    n = A.shape[0]
+    M = q_rows(A)
+    L = [[C(1 if i == j else 0) for j in range(n)] for i in range(n)]
+    D = []
+    for k in range(n):
+        d = M[k][k]
+        if d.im != 0 or d.re < 0:
+            return None
+        D.append(d.re)
+        if d.re == 0:
+            if any(M[i][k].nz() or M[k][i].nz() for i in range(k + 1, n)):
+                return None
+            continue
+        inv = C(1 / d.re)
+        for i in range(k + 1, n):
+            L[i][k] = M[i][k] * inv
+        for i in range(k + 1, n):
+            for j in range(k + 1, n):
+                lj = L[j][k]
+                M[i][j] = M[i][j] - L[i][k] * C(d.re) * C(lj.re, -lj.im)
+    return q_from_rows(L), D
+
+
+def certify_definiteness(ctx, A: QM, psd: bool, mu: Fraction, what: str):
+    """every definiteness verdict used is re-checked by a verified certificate checker:
+    psd=True : A is PSD  (A = L D L^H, D >= 0);  psd=False : A + mu*I is not PSD (witness vector)"""
+    n = A.shape[0]
+    if psd:
+        f = ldl_psd(A)
+        ok = f is not None and ctx.lean().ask("c16_psd_cert", {"A": A.to_json(), "L": f[0].to_json(), "D": [_rj(x) for x in f[1]]}).get("ok")
+        ctx.count("cert/psd")
+    else:
+        w, v = np.linalg.eigh(A.to_np(force_complex=True))
+        x = v[:, 0]
+        xq = QM(np.array([[Fraction(int(round(z.real * 2 ** 20)), 2 ** 20)] for z in x], dtype=object),
+                np.array([[Fraction(int(round(z.imag * 2 ** 20)), 2 ** 20)] for z in x], dtype=object))
+        ok = ctx.lean().ask("c16_npsd_cert", {"A": A.to_json(), "x": xq.to_json(), "mu": _rj(mu)}).get("ok")
+        ctx.count("cert/not_psd")
+    if not ok:
+        raise InfraError(f"{what}: the exact decider's definiteness verdict (psd={psd}) is not confirmed by the verified certificate checker on {A.key()}")
+
+
+def _definiteness_certificates(ctx, name, A, lv):
+    if name not in ("positive_semidefinite", "positive_definite", "density", "doubly_nonnegative") or A.shape[0] != A.shape[1]:
+        return
+    mu = MARGIN * (1 + A.max_abs1())
+    herm = A == A.H
+    if lv == "yes":
+        certify_definiteness(ctx, A - QM.eye(A.shape[0]).scale(mu) if name == "positive_definite" else A, True, mu, name)
+    elif lv == "no" and herm and name in ("positive_semidefinite", "positive_definite"):
+        certify_definiteness(ctx, A, False, mu, name)
+
+
 def ask_pred(ctx, name, A, args, label, kind, expect=None, transformed=None, dtype_seed=None):
     """one question to both sides.  Returns the Lean verdict ('yes'/'no'/None when dropped)."""
     spec = PREDS[name]
@@ -1039,6 +1099,7 @@ def ask_pred(ctx, name, A, args, label, kind, expect=None, transformed=None, dty
     if lv == "unknown":
         ctx.count(f"undetermined/{name}/{kind}")
         return None
+    _definiteness_certificates(ctx, name, A, lv)
     if expect is not None and lv != expect:
         if transformed or kind == "no":
             # a perturbation / transformation that does not have the intended effect is simply not used
@@ -1716,11 +1777,6 @@ def check_same_dim(ctx, shapes):
             viol(ctx, "has_same_dimension([]) should raise ValueError", "has_same_dimension", desc, str(out)[:200], mo)
     elif out[0] != "ok" or bool(out[1]) != mo["v"]:
         viol(ctx, "has_same_dimension wrong", "has_same_dimension", desc, str(out)[:200], mo)
-
-
-def _rj(x):
-    x = Fraction(x)
-    return [x.numerator, x.denominator]
 
 
 def check_majorizes_vec(ctx, a, b, form):
